@@ -978,7 +978,10 @@ class Sim:
         if len(self.world) < 2:
             self._log(i, hi, "drop", "skipped")
             return
-        others = [(j, sd, md) for j, sd, md in self._others(len(self.world) - 1)]
+        # (full digests: freeing a handle exports nothing, so even a CIF
+        # dictionary it shared with another handle must stay as it is)
+        others = [(j, state_digest(o), (memo_digest(o) + _cif_digest(o)) if self.deep_fork_check else "")
+                  for j, o in enumerate(self.world[:-1])]
         for lst in (self.world, self.titl0, self.kw, self.held, self.box, self.cif_loaded, self.cif_group, self.mut_log,
                     self.repeat, self.last_mut, self.last_raise, self.armed):
             lst.pop()
